@@ -792,6 +792,7 @@ func (e *Engine) familyReplay(familyDir, oblName string) map[string]any {
 	out, _ := runOverlayTest(familyDir, pkgID, overlay, "TestVerifFamilyReplay$", []string{"VERIF_CLAUSE=" + label}, 150*time.Second)
 	res := map[string]any{"search": map[string]any{"program": pkgID, "clause": label, "method": "generated server run on every short path over the route set's alphabet (in-package test of the scratch module)"}}
 	res["status"] = "no-input"
+	ownMethod := false
 	for _, ln := range strings.Split(out, "\n") {
 		if strings.HasPrefix(ln, "VERIF-REPLAY-FAIL ") {
 			res["status"] = "confirmed"
@@ -801,6 +802,13 @@ func (e *Engine) familyReplay(familyDir, oblName string) map[string]any {
 		if strings.HasPrefix(ln, "VERIF-REPLAY-NONE ") {
 			res["search_result"] = strings.TrimPrefix(ln, "VERIF-REPLAY-NONE ")
 		}
+		if strings.HasPrefix(ln, "VERIF-REPLAY-METHOD ") {
+			res["search"].(map[string]any)["method"] = strings.TrimPrefix(ln, "VERIF-REPLAY-METHOD ")
+			ownMethod = true
+		}
+	}
+	if ownMethod && res["found_by"] != nil {
+		res["found_by"] = "replay oracle of the program family (see search.method)"
 	}
 	if res["status"] == "no-input" && res["search_result"] == nil {
 		res["search_error"] = truncate(out, 1500)
